@@ -37,7 +37,8 @@ def run(prog: Program, rep: Report, tier: str) -> None:
     from ..rules.loopstate import check_iteration_local
     vf = prog.func('fggs.viterbi', 'viterbi')
     n_state = 0
-    for l in [n for n in own_nodes(vf.node) if isinstance(n, ast.For) and any(isinstance(x, ast.Call) and callee_last(x) == 'scc' for x in ast.walk(n.iter))]:
+    from ..util import inline_temps as _it
+    for l in [n for n in own_nodes(vf.node) if isinstance(n, ast.For) and any(isinstance(x, ast.Call) and callee_last(x) == 'scc' for x in ast.walk(_it(vf.node, n.iter)))]:
         n_state += check_iteration_local(rep, 'C04-D5 component-local state', vf, l)
     rep.floor('C04-D5 component-local names', n_state, 4)
 
